@@ -769,6 +769,7 @@ func init() {
 		if c.Replay == "" {
 			c01MergeDriver(c, NewRng(c.Seed^0xC01D))
 			c01OneShotEnv(c, NewRng(c.Seed^0xC01A))
+			c01StaleObject(c, NewRng(c.Seed^0xC01B))
 			c08Extension(c, "C01", NewRng(c.Seed^0xC01E))
 			// smudging into a named file over {no file, same file, same length, shorter, longer}
 			smudgeToFileCampaign(c, NewRng(c.Seed^0xC01F), "C01")
@@ -796,5 +797,58 @@ func c08BigThroughPipes(c *Ctx, r *Rng) {
 		}
 		runFpProgram(c, 900000+i, p)
 		c.R.Count("big-through-pipes")
+	}
+}
+
+
+// c01StaleObject: at the path where the object of the content belongs, local storage already holds a file
+// that is NOT that object (another length: what a power loss shortly after an earlier clean leaves, nothing
+// being synced).  Whatever clean does — refuse, or replace the file — a pointer it emits with exit 0 must
+// name what is stored under that id.
+func c01StaleObject(c *Ctx, r *Rng) {
+	n := c.N(24, 400)
+	dir := filepath.Join(c.Work, "c01-stale")
+	if gitInit(dir) != nil {
+		return
+	}
+	for i := 0; i < n; i++ {
+		content := r.Bytes(Pick(r, []int{200, 5000, 70000, 300000}))
+		oid := sha(content)
+		obj := filepath.Join(dir, ".git", "lfs", "objects", oid[0:2], oid[2:4], oid)
+		os.MkdirAll(filepath.Dir(obj), 0o755)
+		stale := Pick(r, []string{"empty", "truncated", "longer", "none", "intact"})
+		switch stale {
+		case "empty":
+			os.WriteFile(obj, nil, 0o644)
+		case "truncated":
+			os.WriteFile(obj, content[:len(content)/3], 0o644)
+		case "longer":
+			os.WriteFile(obj, append(append([]byte(nil), content...), []byte("tail")...), 0o644)
+		case "intact":
+			os.WriteFile(obj, content, 0o644)
+		default:
+			os.Remove(obj)
+		}
+		cmd := exec.Command(c.Lfs, "clean", "--", "x.bin")
+		cmd.Dir = dir
+		cmd.Stdin = bytes.NewReader(content)
+		var so, se bytes.Buffer
+		cmd.Stdout, cmd.Stderr = &so, &se
+		err := cmd.Run()
+		enc := fmt.Sprintf("C01 stale-object size=%d at-object-path=%s", len(content), stale)
+		c.R.Eval(enc, stale != "none" && stale != "intact")
+		c.R.Count("stale-object." + stale)
+		if err == nil {
+			if so.String() != string(canonicalPointer(oid, int64(len(content)))) {
+				c.R.Add(Finding{Kind: "oracle", What: "one-shot clean exited 0 but its output is not the pointer of the content", Case: enc, Impl: clip(so.String(), 200)})
+			}
+			if b, rerr := os.ReadFile(obj); rerr != nil || sha(b) != oid {
+				c.R.Add(Finding{Kind: "oracle", What: "the pointer that clean emitted names an id under which local storage does not hold the content", Case: enc,
+					Impl: fmt.Sprintf("stored: %d bytes (err %v), content: %d bytes; stderr: %s", len(b), rerr, len(content), clip(se.String(), 150))})
+			}
+		} else if stale == "none" || stale == "intact" {
+			c.R.Add(Finding{Kind: "oracle", What: "one-shot clean failed on a healthy store", Case: enc, Impl: clip(se.String(), 200)})
+		}
+		os.Remove(obj)
 	}
 }
